@@ -30,7 +30,7 @@ Section BookProofs.
   Notation memp := (mem path_eqb).
   Notation pub := (publish path_eqb tree_files diags_of).
   Notation pcg := (perform_codegen path_eqb analyze disk).
-  Notation hreq := (handle_request path analysis diag request response path_eqb analyze disk tree_text answer null
+  Notation hreq := (handle_request path analysis diag request response path_eqb disk tree_text answer null
                                    rename_answer codelens prepare_answer completion_answer is_alnum_non_ascii).
   Notation stp := (step path analysis diag request response path_eqb analyze disk tree_files diags_of tree_text answer null
                         rename_answer codelens prepare_answer completion_answer is_alnum_non_ascii).
@@ -146,9 +146,7 @@ Section BookProofs.
       pose proof (completion_scope_total is_alnum_non_ascii t line col) as T.
       destruct (completion_scope is_alnum_non_ascii t line col) as [sc|]; [|congruence].
       cbn [bind]. eexists. split; [reflexivity|apply respond_inv; auto].
-    - destruct (rename_answer (ana s) r); eexists; (split; [reflexivity|]).
-      + rewrite (pcg_same _ _ _ _ HI). apply respond_inv; auto.
-      + apply respond_inv; auto.
+    - destruct (rename_answer (ana s) r); eexists; (split; [reflexivity|]); apply respond_inv; auto.
     - eexists. split; [reflexivity|apply respond_inv; auto].
     - eexists. split; [reflexivity|apply respond_inv; auto].
   Qed.
